@@ -109,6 +109,13 @@ pub mod io {
     static ENABLED: AtomicBool = AtomicBool::new(false);
     static STATE: Mutex<Option<State>> = Mutex::new(None);
     static PAGE_WRITE_DELAY_US: std::sync::atomic::AtomicU64 = std::sync::atomic::AtomicU64::new(0);
+    static ABORT_HOOK: Mutex<Option<Box<dyn Fn(&[Event]) + Send>>> = Mutex::new(None);
+
+    /// Called with everything recorded so far right before a `Fault { abort: true, .. }` kills
+    /// the process (the harness writes the log of the dying process to a file).
+    pub fn set_abort_hook(hook: Box<dyn Fn(&[Event]) + Send>) {
+        *ABORT_HOOK.lock().unwrap() = Some(hook);
+    }
 
     /// "Slow device": every page write performed by an I/O worker is followed by a pause of
     /// `micros` before the worker delivers its completion and takes the next command, so that a
@@ -182,6 +189,9 @@ pub mod io {
                 let hit = f.file == file && f.tag == tag && f.ordinal == ordinal;
                 if hit || (f.persistent && s.fired > 0) {
                     if f.abort {
+                        if let Some(hook) = ABORT_HOOK.lock().unwrap().as_ref() {
+                            hook(&s.log);
+                        }
                         std::process::abort();
                     }
                     fail = true;
